@@ -89,6 +89,34 @@ def enum_cases(tier: str):
                             yield {"cfg": cfg, "calls": [{"script": script}], "entry": e}
 
 
+from hypothesis import strategies as st  # noqa: E402
+
+
+@st.composite
+def long_run_case(draw):
+    """Many failures in one call: caps far above the usual handful, and small caps whose earlier
+    failures lie dozens of attempts back (interleaved classes)."""
+    ma = draw(st.sampled_from([33, 34, 40, 64, 65, 100, 130]))
+    big = st.sampled_from([0, 1, 2, 3, 30, 31, 32, 33, 40, 63, 64, 65, 99])
+    cfg: dict = {"max_attempts": ma, "max_unknown": draw(st.one_of(st.none(), big)), "default": {"vals": [0.0], "style": "ctx"}}
+    classes = draw(st.lists(st.sampled_from(gen.RETRYABLE), min_size=1, max_size=3, unique=True))
+    if gen.chance(draw, 0.8, "long-pc"):
+        cfg["per_class"] = {k: draw(big) for k in draw(st.lists(st.sampled_from(classes + ["UNKNOWN"]), min_size=1, max_size=2, unique=True))}
+    # a block of one class, a long block of another, then the first again: `lead` K1, `gap` K2, K1 ...
+    lead = draw(st.sampled_from([1, 2, 3]))
+    gap = draw(st.sampled_from([0, 1, 30, 31, 32, 33, 40]))
+    k1 = classes[0]
+    k2 = classes[-1] if len(classes) > 1 else "UNKNOWN"
+    kind = draw(st.sampled_from(["exc", "exc", "res"]))
+    script = [{"dur": 0, "kind": kind, "klass": k1}] * lead + [{"dur": 0, "kind": "exc", "klass": k2}] * gap + [{"dur": 0, "kind": kind, "klass": k1}]
+    case = {"cfg": cfg, "calls": [{"script": [dict(e) for e in script]}]}
+    if gen.chance(draw, 0.3, "long-cycle"):
+        case["calls"][0]["cycle"] = True
+    case["placement"] = {"log": False, "attempt_hooks": "none"}
+    case["entry"] = draw(st.sampled_from(["Retry.call", "Retry.execute", "AsyncRetry.call", "AsyncRetry.execute", "Policy.execute", "AsyncRetryPolicy.call"]))
+    return case
+
+
 PROP = Property(
     id="C01",
     level="exploration",
@@ -96,7 +124,8 @@ PROP = Property(
         "Hypothesis-generated (config x outcome script x 1-3 calls on one policy object x 12 entry points), counting "
         "invariants on the trace plus a fresh-object differential for every later call; thorough/quick tiers also "
         "enumerate exhaustively every outcome script over a 9-letter alphabet up to length 4/3 x max_attempts 1..4 x "
-        "per-class limit {-,0,1,2} x UNKNOWN cap {-,0,1,2}. Non-trivial = a call with >=2 classified failures that ends on a "
+        "per-class limit {-,0,1,2} x UNKNOWN cap {-,0,1,2}; a long-run stream uses max_attempts 33..130 with caps around 32/64 and "
+        "blocks of one class separated by 30-40 failures of another. Non-trivial = a call with >=2 classified failures that ends on a "
         "cap (global/per-class/UNKNOWN/non-retryable), or a reused-object call made after earlier calls left failures "
         "behind. Distinct = distinct canonical (case, entry)."
     ),
@@ -104,5 +133,6 @@ PROP = Property(
     streams=[
         Stream("caps", check, strategy=C.with_entry(gen.retry_case(PROFILE), C.WIDE_ENTRIES), quick=12000, thorough=300000),
         Stream("small_scope", check, enum=enum_cases, quick=1, thorough=1, exhaustive=True),
+        Stream("long_runs", check, strategy=long_run_case(), quick=1500, thorough=40000),
     ],
 )
